@@ -309,16 +309,16 @@ Ltac close_typed :=
   first
     [ match goal with H : has_type _ ?x = true |- has_type _ ?x = true => exact H end
     | apply keys_of_list_typed
-    | (vm_compute; reflexivity)
     | match goal with
-      | |- has_type ?t ?v = true =>
+      | |- has_type ?t (VStruct ?l) = true =>
           let t' := eval hnf in t in
           lazymatch t' with
           | TStruct _ =>
-              change (has_type t' v = true); apply has_type_struct_intro;
+              change (has_type t' (VStruct l) = true); apply has_type_struct_intro;
               repeat (apply ht_list_cons_intro; [close_typed|]); apply ht_list_nil_intro
           end
-      end ].
+      end
+    | reflexivity ].
 
 Theorem migrate_typed : forall k st s,
   shadow_of k = Some st -> has_type st s = true -> has_type (schema_of k) (migrate k s) = true.
